@@ -451,7 +451,7 @@ func PrintSuggestionsForLsp(p parser.Parser) {
 			return
 		}
 
-		if targetT.IsIdentifierType() && unicode.IsUpper(rune(targetT.ToString()[0])) {
+		if targetT.IsIdentifierType() && len(targetT.ToString()) > 0 && unicode.IsUpper(rune(targetT.ToString()[0])) {
 			printAllClasses()
 		}
 	}
@@ -554,7 +554,8 @@ func calculateObjectClassAndIsStatic(targetT base.T) (string, bool) {
 
 	switch len(beforeCode) {
 	case 0:
-		isStaticTarget = unicode.IsUpper(rune(target[0]))
+		// the token on the requested row may render as an empty string
+		isStaticTarget = len(target) > 0 && unicode.IsUpper(rune(target[0]))
 	default:
 		isStaticTarget = unicode.IsUpper(rune(beforeCode[0]))
 	}
